@@ -136,7 +136,7 @@ func constBlock(gd *ast.GenDecl, env map[string]uint64) ([]encConst, error) {
 	return out, nil
 }
 
-func intLit(e ast.Expr) (uint64, bool) {
+func encIntLit(e ast.Expr) (uint64, bool) {
 	bl, ok := e.(*ast.BasicLit)
 	if !ok || bl.Kind != token.INT {
 		return 0, false
@@ -161,7 +161,7 @@ func literalCallArgs(body *ast.BlockStmt, match func(*ast.CallExpr) bool, argIdx
 			err = fmt.Errorf("call with %d arguments", len(ce.Args))
 			return false
 		}
-		u, ok := intLit(ce.Args[argIdx])
+		u, ok := encIntLit(ce.Args[argIdx])
 		if !ok {
 			if !allowNonLit {
 				err = fmt.Errorf("non-literal field number argument")
@@ -202,7 +202,7 @@ func switchFieldLabels(body *ast.BlockStmt) ([]uint64, error) {
 			continue
 		}
 		for _, e := range cc.List {
-			u, ok := intLit(e)
+			u, ok := encIntLit(e)
 			if !ok {
 				return nil, fmt.Errorf("non-literal case label")
 			}
